@@ -821,6 +821,11 @@ func (e *SpecEnv) comp(n *node) (specVal, error) {
 		}
 		return specVal{}, fmt.Errorf("cannot index sort %s", a.T.Sort)
 	case "field":
+		if n.Kids[0].Op == "id" {
+			if v, ok := e.Vars[n.Kids[0].Text+"."+n.Text]; ok {
+				return specVal{T: v.T, Elem: v.Elem}, nil
+			}
+		}
 		return specVal{}, fmt.Errorf("field access .%s not supported; use prelude accessors", n.Text)
 	case "quant":
 		ne := *e
